@@ -27,10 +27,10 @@ def rdWCfg (t : Toks) : WCfg × Toks :=
   let (rate, t) := tk t; let (mult, t) := tk t; let (minC, t) := tk t; let (taxMult, t) := tk t
   let (sws, t) := rdSwitches t
   let (swf, t) := rdSwitches t
-  let (tp, t) := tk t; let (ri, t) := tk t; let (fo, t) := tk t
+  let (tp, t) := tk t; let (ri, t) := tk t; let (fo, t) := tk t; let (mi, t) := tk t
   ({ instruments := inss, priceLimit := pB pl, inactiveLimit := pB il, volumeLimit := pB vl, volumePercent := pF vp, slipKind := pN sk,
      slipRate := pF sr, stockCost := { rate := pF rate, mult := pF mult, minC := pF minC, taxRate := 0.0, taxMult := pF taxMult },
-     swStock := sws, swFut := swf, tplusOn := pB tp, reinvest := pB ri, forced := pB fo }, t)
+     swStock := sws, swFut := swf, tplusOn := pB tp, reinvest := pB ri, forced := pB fo, matchImmediately := pB mi }, t)
 
 def rdDayIns (today : Nat) (t : Toks) : DayIns × Toks :=
   let (ins, t) := tk t; let (op, t) := tk t; let (cl, t) := tk t; let (ad, t) := tk t; let (bd, t) := tk t
@@ -51,6 +51,12 @@ def rdWIn (t : Toks) : WIn × Toks :=
     let (today, t) := tk t; let (tax, t) := tk t; let (n, t) := tk t
     let (ds, t) := rdMany (rdDayIns (pN today)) (pN n) t
     (.preBeforeTrading (pN today) (pF tax) ds, t)
+  else if tag == "M" then
+    let (n, t) := tk t
+    let (rows, t) := rdMany (fun t =>
+      let (ins, t) := tk t; let (cl, t) := tk t; let (deal, t) := tk t; let (lu, t) := tk t; let (ld, t) := tk t; let (vol, t) := tk t
+      ((pN ins, pOF cl, ({ deal := pOF deal, limitUp := pOF lu, limitDown := pOF ld, volume := pOF vol, listedToday := false } : MBar)), t)) (pN n) t
+    (.barData rows, t)
   else if tag == "B" then (.beforeTrading, t)
   else if tag == "A" then (.openAuction, t)
   else if tag == "R" then (.bar, t)
